@@ -16,7 +16,7 @@ macro_rules! counters {
 counters! {
     // runs
     runs, runs_fault_free_plan, runs_with_fault_delivered, runs_nontrivial, values_unbuildable,
-    values_version, values_range, shape_bare, shape_array, shape_struct_field, shape_tagged_enum, shape_map_keys,
+    values_version, values_range, shape_bare, shape_array, shape_struct_field, shape_tagged_enum, shape_map_keys, shape_option, shape_untagged_enum, shape_flattened_struct,
     values_from_text, values_from_fields, values_from_tuple, values_from_setop, setop_panicked,
     model_mismatch_notes,
     // G0: in-memory baseline on the sampled value
